@@ -91,6 +91,19 @@ def fragileGaps (ms : List Module) : List (String × String) :=
 def rejectGaps (ms : List Module) : List (String × String) :=
   ms.flatMap fun m => m.rejecting.map fun p => (m.name, p)
 
+/-- a duplicate check of `GenesisState.Validate` is sound for records that are unique under their store key iff its key names no
+component twice, every component of the store key is in it (or implied by the enclosing loops), and it names nothing else -/
+def validateKeyOk (v : String × List String × List String × List String) : Bool :=
+  let scope := v.2.1
+  let val := v.2.2.1
+  let store := v.2.2.2
+  decide val.Nodup && store.all (fun x => scope.contains x || val.contains x) && val.all (fun x => store.contains x) && !store.isEmpty
+
+/-- duplicate checks whose key does not match the store key: a state with two records that differ only in the omitted component
+is exported fine and refused by the module's own ValidateGenesis / InitGenesis -/
+def validateKeyGaps (ms : List Module) : List (String × String) :=
+  ms.flatMap fun m => (m.validateKeys.filter fun v => !validateKeyOk v).map fun v => (m.name, v.1)
+
 /-- genesis fields ExportGenesis fills and InitGenesis never looks at -/
 def fieldGaps (ms : List Module) : List (String × String) :=
   ms.flatMap fun m => (m.genFields.filter fun f => !m.initFields.contains f).map fun f => (m.name, f)
